@@ -20,6 +20,7 @@ import RosuModel.Model.ClockRate
 import RosuModel.Model.PerfCalcWire
 import RosuModel.Model.SliderEventsWire
 import RosuModel.Model.ManiaPatternWire
+import RosuModel.Model.SkillWire
 
 open Rosu
 
@@ -75,6 +76,8 @@ def handle (line : String) : String :=
   | "C09" :: args => Finite.handleFinite args
   | ["CRB", x] => ClockRate.handleCRB x
   | "PP" :: args => PerfCalc.handlePP args
+  | ["MSKILL", rate, cols, take, objs] => SkillWire.handleMSKILL rate cols take objs
+  | ["CSKILL", rate, cs, take, objs] => SkillWire.handleCSKILL rate cs take objs
   | ["SLEV", st, sd, v, td, tot, sp] => SliderEvents.handleSLEV st sd v td tot sp
   | ["OSLD", v, sm, tr, sl] => SliderEvents.handleOSLD v sm tr sl
   | ["JUICE", v, sm, tr, objs] => SliderEvents.handleJUICE v sm tr objs
